@@ -201,6 +201,8 @@ def run_connect(case, rng, mon):
             mon.violations.append({"monitor": "signature_unchanged_by_use", "mechanism": f"{case['cls']}:signature-changed-by-use",
                                    "msg": f"{what}: signature is now {used!r} (members {sorted(used.members)}), it was built as "
                                           f"{ref!r}", "detail": {"params": P}})
+    for port, _sig, _role in ports:
+        mon.count("feature_getters_poked", poke_features(port))
     for port, sig, role in ports:
         # the port reports the parameters it was built with: rebuilding the standard signature from what the port
         # itself reports must give the same signature as building it from the constructor arguments
@@ -316,6 +318,29 @@ def expected_members(cls, params):
     return {"i": 1, "o": 1, "oe": 1}
 
 
+def poke_features(obj):
+    """What a caller may do with the value a `features` getter returned: accumulate into it. On the documented
+    frozenset that rebinds the caller's own name (or raises AttributeError); it never reaches into the object."""
+    n = 0
+    try:
+        f = obj.features
+    except AttributeError:
+        return 0
+    try:
+        f |= {wishbone.Feature.ERR, wishbone.Feature.BTE}
+        n += 1
+    except Exception:
+        pass
+    for meth, args in (("add", (wishbone.Feature.STALL,)), ("discard", (wishbone.Feature.LOCK,)),
+                       ("update", ({wishbone.Feature.RTY},)), ("clear", ())):
+        try:
+            getattr(obj.features, meth)(*args)
+            n += 1
+        except (AttributeError, TypeError):
+            pass
+    return n
+
+
 def refused_calls(rng, sigs):
     """Calls that are refused part-way (bad create() arguments, bad constructor parameters): whatever they leave
     behind must not affect the signatures built afterwards. Returns the number of refusals seen."""
@@ -399,6 +424,10 @@ def run_sig(case, rng, mon):
     g = grid(cls, rng)
     sigs = [(p, f()) for p, f in g]
     mon.count("refused_calls_before_twins", refused_calls(rng, [sg for _p, sg in sigs]))
+    if cls == "wishbone.Signature":
+        for _p, sg in rng.sample(sigs, min(len(sigs), 200)):
+            mon.count("feature_getters_poked", poke_features(sg))
+            mon.count("feature_getters_poked", poke_features(sg.create(path=("poke",))))
     twins = [(p, f()) for p, f in g]           # independently constructed, equal parameters (after some refused calls)
     mism = []
     used = 0
